@@ -228,7 +228,9 @@ def tol_term(case, planner, out):
     scale = max([F(1)] + vals)
     tiny = F(1, 10**9) * scale
     if planner == "vi_vec":
-        epsb, qtol = eps + tiny, tiny
+        # the property does not say WHICH iterate the reported action values look ahead from: the one reported
+        # (today's code) or its successor (as the dict version does); both are within gamma*eps of each other
+        epsb, qtol = eps + tiny, g * eps + tiny
     elif planner == "vi_dict":
         epsb, qtol = eps + tiny, g * eps + tiny
     else:
